@@ -44,10 +44,15 @@ def alphabet(rng, addrs):
             ("tc4c7", F.df17(7, a, F.me_ident(4, rng.randrange(8), F.callsign_codes("CAP%03d" % rng.randrange(1000))))),
             ("df21b20", F.df21(0, 0, 0, rng.randrange(8192), F.bds20(F.callsign_codes("BDS%03d" % rng.randrange(1000))), a)),
             ("tc31", F.df17(rng.randrange(4), a, F.me_raw(31, rng.randrange(1 << 51)))),
+            # two identification squitters with the same characters but different type code / category, and a BDS 2,0 reply
+            # carrying those characters too: "unchanged callsign" must not suppress the rest of the frame
+            ("tc4same", F.df17(5, a, F.me_ident(4, 3, F.callsign_codes("SAME%03d" % (a % 1000))))),
+            ("tc3same", F.df17(5, a, F.me_ident(3, 6, F.callsign_codes("SAME%03d" % (a % 1000))))),
+            ("df21same", F.df21(0, 0, 0, rng.randrange(8192), F.bds20(F.callsign_codes("SAME%03d" % (a % 1000))), a)),
         ]
     return out
 
-CLASS = {"df11c4": "df11", "tc4c7": "tc4", "tc1": "tc2", "tc5": "tc6", "tc8": "tc6", "tc9": "tc11e", "tc18": "tc11e", "tc20": "tc21", "tc22": "tc21", "tc23": "tc28"}
+CLASS = {"df11c4": "df11", "tc4c7": "tc4", "tc4same": "tc4", "tc3same": "tc2", "df21same": "df21b20", "tc1": "tc2", "tc5": "tc6", "tc8": "tc6", "tc9": "tc11e", "tc18": "tc11e", "tc20": "tc21", "tc22": "tc21", "tc23": "tc28"}
 
 def carried(kind, spec, impl_frame):
     """what the specification says the frame carries: {param: value or None (no valid value)}"""
@@ -77,7 +82,7 @@ class C11(PropBase):
     id = "C11"
     lean_modules = ["SqModel.Props.C11", "SqModel.Proofs.Dispatch"]
     extractors = ["dispatch"]
-    rule = ("sequences over an alphabet of 32 well-formed frame kinds (every supported format, both edges of every type-code class, capability 4 and 7, a BDS 2,0 reply) x 2 aircraft (every supported format; altitude codes with Q=1), "
+    rule = ("sequences over an alphabet of 35 well-formed frame kinds (every supported format, both edges of every type-code class, capability 4 and 7, a BDS 2,0 reply) x 2 aircraft (every supported format; altitude codes with Q=1), "
             "bounded-exhaustive for length 2 and sampled for length 3 (quick) / exhaustive length 3 (thorough), plus random sequences of "
             "50-300 frames with time steps; -U on/off; dump after every frame; compared with the model and with a reference fold "
             "('latest value of the last frame that carries the parameter, or blank/previous if it carried none') built from the Lean "
@@ -116,9 +121,9 @@ class C11(PropBase):
                     created = addr not in ref
                     cur = ref.setdefault(addr, {})
                     car = carried(kind, specs[k], implf[k])
-                    if kind == "df21b20" and caps.get(addr, 0) >= 4:
+                    if CLASS.get(kind, kind) == "df21b20" and caps.get(addr, 0) >= 4:
                         car["ais"] = '"' + bds_names[k] + '"'       # capability >= 4 recorded: the BDS 2,0 callsign is taken
-                    if created and kind in ("df20", "df21", "df21b20"):
+                    if created and CLASS.get(kind, kind) in ("df20", "df21", "df21b20"):
                         car = {}          # the creating DF20/21 frame may contribute the address only
                     if tag == "refeed" and fr[0] in "58" and int(fr[0:2], 16) >> 3 in (11, 17):
                         caps[addr] = int(fr[0:2], 16) & 7          # CA of DF11 / DF17, in force from the next frame on
@@ -167,7 +172,7 @@ class C11(PropBase):
             raise core.Broken("spec lines unavailable for the alphabet", "")
         self.names = {}
         for kind, fr in alpha:
-            if kind == "df21b20":
+            if CLASS.get(kind, kind) == "df21b20":
                 mb = (int(fr, 16) >> 24) & ((1 << 56) - 1)
                 codes = [(mb >> (42 - 6 * i)) & 63 for i in range(8)]
                 self.names[fr] = "".join(chr(64 + c) if 1 <= c <= 26 else (chr(c) if 48 <= c <= 57 else "") for c in codes)
